@@ -258,3 +258,13 @@ pub fn value_matches(res: &Result<crate::value::Value, crate::TracedInterpreterE
 pub fn stub_symbol_display(_s: &crate::symbol::Symbol, _f: &mut std::fmt::Formatter<'_>) -> std::fmt::Result {
     Ok(())
 }
+
+/// A numeric literal whose value is fixed by an assumption instead of being a compile-time constant.
+/// CBMC 6.11's simplifier folds `(constant f64) as u64` to 0 (measured: `100.0 as u64 == 100` is
+/// UNSATISFIABLE for a constant operand, satisfied for a symbolic one and for `as i64`), so jump
+/// targets (`line_number as u64` in GOTO/GOSUB) must not be constants.
+pub fn kn(x: f64) -> f64 {
+    let v: f64 = kani::any();
+    kani::assume(v == x);
+    v
+}
